@@ -53,6 +53,7 @@ func runC16(c *Ctx) {
 		runRangeConcurrent(c, c.Scale(2, 10))
 		runPrefixConcurrent(c, c.Scale(6, 60))
 		runPrefixGate(c)
+		runDualStackRefresh(c)
 		c.Extra["concurrent_phase"] = "race detector: concurrent datagrams through HandleMsg4 (server_id, file with autorefresh and the lease file rewritten in flight, range, dns, router, netmask) and HandleMsg6 (server_id, prefix, dns) with receive buffers from the server's pool, plus the allocator / range / prefix concurrent phases"
 		return
 	}
@@ -357,6 +358,53 @@ func runChain4Concurrent(c *Ctx, ranges int, witness bool) {
 		os.Remove(dbPath)
 	}
 	c.Dist["v4-chain-instances"] += ranges
+}
+
+// runDualStackRefresh: the file plugin set up for both protocols with autorefresh, both lease
+// files rewritten again and again while static clients are being answered.  Only the race detector
+// judges this phase (which table is served in a dual-stack set-up is C10's known finding F10); it
+// runs last because it replaces the table of the DHCPv4 chain above.
+func runDualStackRefresh(c *Ctx) {
+	wd := workDir()
+	f4 := filepath.Join(wd, "c16-dual4.txt")
+	f6 := filepath.Join(wd, "c16-dual6.txt")
+	t4 := "02:aa:00:00:00:01 10.8.0.1\n"
+	t6 := "02:aa:00:00:00:01 2001:db8::1\n"
+	os.WriteFile(f4, []byte(t4), 0o644)
+	os.WriteFile(f6, []byte(t6), 0o644)
+	h4, err4 := file.Plugin.Setup4(f4, "autorefresh")
+	_, err6 := file.Plugin.Setup6(f6, "autorefresh")
+	if err4 != nil || err6 != nil {
+		c.Violate("harness-setup", fmt.Sprintf("dual-stack file plugin: %v %v", err4, err6), nil)
+		return
+	}
+	var wg sync.WaitGroup
+	var stop int32
+	for g := 0; g < 4; g++ {
+		wg.Add(1)
+		go func() {
+			defer wg.Done()
+			for atomic.LoadInt32(&stop) == 0 {
+				req := mkReq4([]byte{2, 0xaa, 0, 0, 0, 1}, "", dhcpv4.MessageTypeDiscover)
+				resp, _ := dhcpv4.New()
+				callH4(h4, req, resp)
+			}
+		}()
+	}
+	n := c.Scale(150, 1500)
+	for i := 0; i < n; i++ {
+		for _, fw := range []struct{ p, t string }{{f4, t4}, {f6, t6}} {
+			if f, err := os.OpenFile(fw.p, os.O_WRONLY, 0); err == nil {
+				f.WriteAt([]byte(fw.t), 0)
+				f.Close()
+			}
+		}
+		time.Sleep(500 * time.Microsecond)
+	}
+	atomic.StoreInt32(&stop, 1)
+	wg.Wait()
+	time.Sleep(20 * time.Millisecond) // let the watchers drain their events
+	c.Dist["dual-stack-refresh-rewrites"] = 2 * n
 }
 
 // ---------- DHCPv6 ----------
